@@ -200,12 +200,12 @@ def main(chk: core.Check) -> int:
     chk.coverage["rule"] = "evaluations = table entries scanned on the real builders + digis of the all-ids file read with decoding on/off; distinct = check classes"
     chk.assumptions += ["BOSS sources are not available offline: 'equals the BOSS map' is decided as 'equals the pinned reference tables' (reference/reid_tables.json, SHA-256 pinned at commit 631bbaa)",
                         "tables are evaluated, not modelled: build_*_re2te() have no input, so their value is their whole behaviour"]
-    gs = [gen.gen_reid(), gen.gen_geom(), gen.gen_digi(), gen.gen_raw_consts()]
+    gs = [gen.gen_reid(), gen.gen_geom(), gen.gen_digi(), gen.gen_raw_consts(), gen.gen_reidpy()]
     bad = [g for g in gs if not g["ok"]]
     if bad:
         chk.obligation_broken("translator", "regenerate reid/geometry/digi/raw-constant models", bad[0]["error"])
     else:
-        chk.prove(extra_allowed=bv_axiom_ok)
+        chk.prove(extra_allowed=bv_axiom_ok, modules=["C10", "ReidTie"])
         chk.coverage["table_sizes"] = {k: v for k, v in gs[0]["info"].items() if k != "wiring"}
         chk.coverage["traces_validated_against_impl"] = sum(v["len"] for k, v in gs[0]["info"].items() if k != "wiring")
     try:
